@@ -1,6 +1,7 @@
 //! The strict, scriptable mock ACME server (HTTP/1.1 by hand, one request per connection).
 use super::issue::{csr_signature_ok, Issuer};
 use super::plan::*;
+use super::plan::Validate;
 use crate::engine::monotonic_ns;
 use crate::oracle::der::{self, GeneralName};
 use crate::oracle::jwk::{self, Jws};
@@ -1034,6 +1035,24 @@ fn process(g: &mut CaState, idx: usize, head: &Head, path: &str, pos: &Pos, oid:
 				}
 			}
 			let c = a.challenges[ci].clone();
+			if let (Some(val), true) = (g.plan.validate.clone(), c.status == "processing") {
+				let acct_jwk = acct.map(|i| g.accounts[i].jwk.clone()).unwrap_or(Value::Null);
+				let ident = g.orders[oid].authz[*i].value.clone();
+				let res = validate_challenge(&val, &c.ty, &c.token, &ident, &acct_jwk);
+				let a = &mut g.orders[oid].authz[*i];
+				match res {
+					Ok(()) => {
+						a.status = "valid".into();
+						a.challenges[ci].status = "valid".into();
+					}
+					Err(e) => {
+						a.status = "invalid".into();
+						a.challenges[ci].status = "invalid".into();
+						g.event(idx, "validation-failed", format!("{} validation of {ident}: {e}", c.ty));
+					}
+				}
+			}
+			let c = g.orders[oid].authz[*i].challenges[ci].clone();
 			let mut v = json!({"type": c.ty, "url": req_url, "token": c.token, "status": c.status});
 			if let Some(Action::MissingField(f)) = fault {
 				remove_field(&mut v, f);
@@ -1170,6 +1189,79 @@ fn process(g: &mut CaState, idx: usize, head: &Head, path: &str, pos: &Pos, oid:
 			}
 		}
 		_ => Resp::problem("malformed", 404, "unknown resource"),
+	}
+}
+
+/// What a conforming CA does to validate a challenge (RFC 8555 8.3, RFC 8737 3), with patience.
+fn validate_challenge(val: &Validate, ty: &str, token: &str, ident: &str, acct_jwk: &Value) -> Result<(), String> {
+	let thumb = jwk::jwk_thumbprint(acct_jwk)?;
+	let ka = format!("{token}.{thumb}");
+	let deadline = std::time::Instant::now() + Duration::from_millis(val.patience_ms);
+	loop {
+		let r = match ty {
+			"http-01" => {
+				let root = val.http_root.as_ref().ok_or("no web root configured at the CA")?;
+				let path = format!("{root}/{ident}/.well-known/acme-challenge/{token}");
+				match std::fs::read(&path) {
+					Err(e) => Err(format!("{path}: {e}")),
+					Ok(body) => {
+						let txt = String::from_utf8_lossy(&body).to_string();
+						if txt.trim_end() == ka {
+							use std::os::unix::fs::PermissionsExt;
+							let mode = std::fs::metadata(&path).map(|m| m.permissions().mode()).unwrap_or(0);
+							if mode & 0o004 == 0 {
+								Err(format!("{path} is not world-readable (mode {:o}): a web server could not serve it", mode & 0o777))
+							} else {
+								Ok(())
+							}
+						} else {
+							Err(format!("{path} holds {txt:?}, expected the key authorization {ka:?}"))
+						}
+					}
+				}
+			}
+			"tls-alpn-01" => {
+				let t = val.tls.as_ref().ok_or("no TLS target configured at the CA")?;
+				let target = if let Some(dir) = t.strip_prefix("unix:") {
+					crate::tlsclient::Target::Unix(format!("{dir}/tacd_{ident}.sock"))
+				} else {
+					crate::tlsclient::Target::Tcp(t.trim_start_matches("tcp:").to_string())
+				};
+				match crate::tlsclient::handshake(&target, ident, &["acme-tls/1".to_string()], Duration::from_secs(5)) {
+					Err(e) => Err(format!("acme-tls/1 handshake with {target:?}: {e}")),
+					Ok(h) => {
+						if h.alpn.as_deref() != Some(b"acme-tls/1") {
+							Err("acme-tls/1 not negotiated".to_string())
+						} else {
+							let der = h.peer_der.ok_or("no certificate")?;
+							let c = der::parse_cert(&der)?;
+							let san = c.san()?;
+							let digest = jwk::sha256(ka.as_bytes());
+							let mut want = vec![0x04, 0x20];
+							want.extend_from_slice(&digest);
+							let ext = c.extensions.iter().find(|e| e.oid == "1.3.6.1.5.5.7.1.31");
+							if san != vec![GeneralName::Dns(ident.to_string())] {
+								Err(format!("certificate SAN {san:?}, expected {ident}"))
+							} else if ext.map(|e| (e.critical, e.value.clone())) != Some((true, want)) {
+								Err("acmeIdentifier extension missing, not critical or wrong".to_string())
+							} else {
+								Ok(())
+							}
+						}
+					}
+				}
+			}
+			t => Err(format!("validating mode does not support {t}")),
+		};
+		match r {
+			Ok(()) => return Ok(()),
+			Err(e) => {
+				if std::time::Instant::now() >= deadline {
+					return Err(e);
+				}
+				std::thread::sleep(Duration::from_millis(50));
+			}
+		}
 	}
 }
 
